@@ -31,6 +31,14 @@ ORDER = {"const": 0, "escaped": 1, "escaped_nq": 2, "markup": 3, "tainted": 4}
 SAFE_CONST = re.compile(r"^[\w \-.#%(),:;/+]*$")
 
 
+UNREADABLE = ("list element",)     # a report row that is not a dict display: built by means the abstraction does not follow (kept narrow: everything else stays TAINTED)
+
+
+def unreadable(why: str) -> bool:
+    """TAINTED for want of knowledge (a structure the abstraction cannot follow), as opposed to a raw value traced to a caller-controlled source."""
+    return bool(why) and why.startswith(UNREADABLE)
+
+
 class Cls:
     __slots__ = ("kind", "consts", "why")
 
@@ -46,6 +54,8 @@ class Cls:
         a, b = self, other
         if ORDER[a.kind] < ORDER[b.kind]:
             a, b = b, a
+        if a.kind == b.kind == "tainted" and unreadable(a.why) and not unreadable(b.why):
+            a, b = b, a         # a positively identified raw flow is the reason to report
         return Cls(a.kind, (), a.why or b.why)
 
     def __repr__(self):
